@@ -23,7 +23,7 @@ avars == <<live, cb, cfg, ast>>
 
 EmptyFn == [x \in {} |-> 0]
 AInit == /\ live = EmptyFn /\ cb = <<>> /\ cfg = [static |-> <<>>]
-         /\ ast = [chain |-> <<>>, cur |-> 0, bad |-> FALSE, dyn |-> <<>>, intact |-> TRUE, live |-> <<>>, cbuf |-> <<>>, stats |-> <<>>]
+         /\ ast = [ptr |-> <<0, 0>>, end |-> <<0, 0>>, chain |-> <<>>, cur |-> 0, bad |-> FALSE, dyn |-> <<>>, intact |-> TRUE, live |-> <<>>, cbuf |-> <<>>, stats |-> <<>>]
 
 AllRegions == {live[i].reg : i \in DOMAIN live} \cup {cb[i][2] : i \in DOMAIN cb}
 
@@ -36,7 +36,9 @@ Entry(s, id) == CHOOSE x \in Range(s.live) : x[1] = id
 
 (* op = <<kind, size, ..>>, r = <<"Ok"|"Null", id, allocated size, flag>> ; s = projection after the call *)
 AllocStep(op, r, s) ==
-  IF r[1] # "Ok" THEN UNCHANGED <<live, cfg>>                     \* a reported failure changes nothing
+  IF r[1] # "Ok" THEN UNCHANGED <<live, cfg>>                     \* a reported failure (e.g. the heap refused a new block) hands
+                                                                   \* out nothing; every live block stays intact and disjoint from
+                                                                   \* everything handed out later (invariants below)
   ELSE /\ \E x \in Range(s.live) : x[1] = r[2]
        /\ LET x == Entry(s, r[2]) reg == x[2] IN
           /\ r[2] \notin DOMAIN live
@@ -89,6 +91,14 @@ StatsOk == (ast.bad \/ ast.stats = <<>> \/ ast.chain = <<>>) \/
            /\ ast.stats[2] <= ast.stats[3]
            /\ ast.stats[2] >= SumSeq([i \in DOMAIN ast.cbuf |-> IF InChain(ast, ast.cbuf[i][2]) THEN RSize(ast.cbuf[i][2]) ELSE 0])
                                + SumSeq([i \in DOMAIN ast.live |-> IF InChain(ast, ast.live[i][2]) THEN RSize(ast.live[i][2]) ELSE 0])
+(* the bump cursor: [ptr, end) is the unallocated tail of the current block - no live block may reach into it, *)
+(* whatever happened before (including a request that failed half way)                                        *)
+CursorOk == (ast.bad \/ ast.cur = 0) \/
+            /\ ALe(ast.ptr, ast.end)
+            /\ ast.end = ast.chain[ast.cur][2]
+            /\ ALe(ast.chain[ast.cur][1], ast.ptr)
+BumpFree == (ast.bad \/ ast.cur = 0 \/ ~ALt(ast.ptr, ast.end)) \/
+            \A q \in AllRegions : RDisjoint(q, <<ast.ptr, ast.end>>)
 ChainBlocksDisjoint == \A i, j \in DOMAIN ast.chain : i < j => RDisjoint(ast.chain[i], ast.chain[j])
-AInv == StatsOk /\ ChainOk /\ ContentsIntact /\ LiveAsLogged /\ AllAligned /\ AllOwned /\ AllDisjoint /\ StaticFirst /\ ChainBlocksDisjoint
+AInv == CursorOk /\ BumpFree /\ StatsOk /\ ChainOk /\ ContentsIntact /\ LiveAsLogged /\ AllAligned /\ AllOwned /\ AllDisjoint /\ StaticFirst /\ ChainBlocksDisjoint
 =============================================================================
